@@ -51,6 +51,7 @@ Reason(e, s) ==
     [] e.ev = "pad" -> IF e.res # "ok" THEN "padding_panic" ELSE IF ~e.earlier_packets_unchanged THEN "earlier_packet_changed_by_later_call"
                        ELSE IF Len(e.pkts) # e.n THEN "padding_count" ELSE PadReason(e, s, 1, e.n)
     [] e.ev = "enable" -> IF e.res # "ok" THEN "enable_panic" ELSE ""
+    [] e.ev = "unavailable" -> ""      \* the verification accessors do not fit the implementation (counted by the orchestrator)
     [] OTHER -> "unknown_event"
 Step(e, s) ==
   CASE e.ev = "packetize" -> [s EXCEPT !.s = AfterPacketize(s.s, Len(e.pkts), e.samples)]
